@@ -29,11 +29,18 @@ MODULE = "Sqfs.Props.C12"
 REQUIRED = ["Sqfs.C12.read_at_spec", "Sqfs.C12.read_at_never_short", "Sqfs.C12.write_at_spec",
             "Sqfs.C12.write_at_never_short", "Sqfs.C12.write_all_spec", "Sqfs.C12.write_all_never_short",
             "Sqfs.C12.istream_bytes", "Sqfs.C12.client_history_script_independent", "Sqfs.C12.read_skip_splice_spec",
-            "Sqfs.C12.get_line_chunking_independent", "Sqfs.C12.record_to_memory_spec"]
+            "Sqfs.C12.get_line_chunking_independent", "Sqfs.C12.record_to_memory_spec",
+            "Sqfs.C12.xfrm_istream_chunking_independent", "Sqfs.C12.xfrm_ostream_script_independent"]
 WRAP = ["read", "write", "pread", "pwrite", "pread64", "pwrite64", "lseek", "lseek64", "ftruncate", "ftruncate64", "fsync"]
 ISTREAM_C = "lib/sqfs/src/io/istream.c"
 OSTREAM_C = "lib/sqfs/src/io/ostream.c"
+XISTREAM_C = "lib/xfrm/src/istream.c"
+XOSTREAM_C = "lib/xfrm/src/ostream.c"
 SMALL_B = [1, 7, 64]
+# buffer sizes of the xfrm istream / ostream in the small-buffer builds (same source text, BUFSZ replaced)
+SMALL_BX = {1: (4, 2), 7: (16, 16), 64: (23, 9)}
+HARNESS_SRC = ["h_c12.c", "h_c12_peek_istream.c", "h_c12_peek_ostream.c", "h_c12_peek_xistream.c", "h_c12_peek_xostream.c"]
+STREAMK = ("istream", "xistream", "xostream")
 HARNESS_TIMEOUT = 600     # seconds per harness process; an idle machine needs < 5 s (quick) / < 60 s (thorough)
 
 
@@ -236,6 +243,57 @@ def gen_istream(rng, B, big):
             "full": "istream %d %s %s %s -" % (B, fl, d, o), "spec": "spec %d %s %s" % (B, d, o), "args": (d, ops)}
 
 
+def gen_xistream(rng, B, BX, big):
+    """client of the decompressing istream (toy codec) on top of the file istream"""
+    if big:
+        n = rng.choice([BX // 2 - 1, BX // 2, BX // 2 + 1, B, B + 1, rng.randint(0, 2 * B)])
+        d = "g%d:%d:%d" % (rng.randint(0, 999), n, rng.choice([1, 2, 3]))
+    else:
+        n = rng.choice([0, 1, BX // 2, BX // 2 + 1, BX, B, B + 1, rng.randint(0, 3 * max(B, BX) + 8), rng.randint(0, 60)])
+        pool = A3 + ([255] if rng.random() < 0.15 else [])        # 0xFF at the head of a window = codec error
+        d = hexdata(bytes(rng.choice(pool) for _ in range(n)))
+    ops = []
+    for _ in range(rng.randint(1, 8)):
+        sz = rng.choice([0, 1, 3, around(rng, BX), around(rng, 2 * n), rng.randint(0, 2 * n + 4), 511, 512, 513])
+        if not big:
+            sz = min(sz, 8 * (B + BX) + 600)
+        ops.append(rng.choice(["g%d", "R%d", "R%d", "S%d", "P%d", "M%d", "L%d"]) % (sz if True else 0))
+        if ops[-1][0] == "L":
+            ops[-1] = "L%d" % rng.randint(0, 7)
+        if ops[-1][0] == "M":
+            ops[-1] = "M%d" % rng.choice([1, 5, 17, 511, 512, 513, max(1, min(sz, 1500))])
+    fl = rng.choice("sn")
+    hard = rng.random() < 0.2
+    sc = gen_script(rng, 40 if not big else 100, max(B, 8), hard)
+    o = ",".join(ops)
+    return {"kind": "xistream", "B": B, "script": sc,
+            "line": "xistream %d %d %s %s %s %s" % (B, BX, fl, d, o, script_tok(sc)),
+            "full": "xistream %d %d %s %s %s -" % (B, BX, fl, d, o), "spec": "xspec %d %d %s %s" % (B, BX, d, o), "args": (d, ops)}
+
+
+def gen_xostream(rng, B, BX, big):
+    ops = []
+    for _ in range(rng.randint(0, 7)):
+        r = rng.random()
+        if r < 0.55:
+            if big and rng.random() < 0.5:
+                ops.append("dg%d:%d:0" % (rng.randint(0, 99), rng.choice([BX - 1, BX, BX + 1, 2 * BX + 7])))
+            else:
+                ops.append("d" + hexdata(small_data(rng, rng.choice([3, 12, 3 * BX + 2]) if not big else 12)))
+        elif r < 0.85:
+            ops.append("h%d" % (rng.choice([0, 1, BX - 1, BX, BX + 1, 2 * BX + 1, rng.randint(0, 3 * BX)]) if not big else rng.choice([0, 5, BX + 1])))
+        else:
+            ops.append("f")
+    if rng.random() < 0.7:
+        ops.append("f")
+    fl = rng.choice("sn")
+    hard = rng.random() < 0.25
+    sc = gen_script(rng, 40, 3 * BX if not big else BX, hard)
+    o = ",".join(ops) if ops else "-"
+    return {"kind": "xostream", "B": B, "script": sc, "line": "xostream %d %s %s %s" % (BX, fl, o, script_tok(sc)),
+            "full": "xostream %d %s %s -" % (BX, fl, o), "args": (fl, ops)}
+
+
 # ------------------------------------------------------------------------------------------------ monitors
 TAIL = re.compile(r" left=(\d+) trace=(\S+)$")
 
@@ -244,10 +302,10 @@ def observable(kind, out):
     """what a caller can see: everything except the number of script events left, the syscall trace and (for the
     istream) the private buffer indices"""
     o = TAIL.sub("", out)
-    if kind == "istream":
-        o = re.sub(r"st=\S+ ", "", o)
+    if kind in ("istream", "xistream"):
+        o = re.sub(r"x?st=\S+ ", "", o)
         o = re.sub(r" size=\d+ sparse=\d+", "", o)
-    if kind == "ostream":
+    if kind in ("ostream", "xostream"):
         o = re.sub(r" size=\d+", "", o)          # `file->size` is write-only bookkeeping (double counts under NO_SPARSE)
     return o
 
@@ -296,32 +354,36 @@ def never_short(sc):
 
 # ------------------------------------------------------------------------------------------------ builds
 def build_harnesses(ctx):
-    lib = ctx.build_lib(tag="c12", exclude=(ISTREAM_C, OSTREAM_C))
+    """→ ({B: harness path}, B of the working tree, small Bs, {B: (BX istream, BX ostream)})"""
+    lib = ctx.build_lib(tag="c12", exclude=(ISTREAM_C, OSTREAM_C, XISTREAM_C, XOSTREAM_C))
     wrap = ["-Wl," + ",".join("--wrap=" + w for w in WRAP)]
-    hs = {}
-    real = ctx.cc("h_c12", ["h_c12.c", "h_c12_peek_istream.c", "h_c12_peek_ostream.c"], flags=wrap,
-                  libs=[str(lib)] + vlib.CODEC_LIBS)
-    r = vlib.sh([str(real)], input="bufsz\n", env=ctx.san_env(), timeout=60)
+    hs, bx = {}, {}
+    real = ctx.cc("h_c12", HARNESS_SRC, flags=wrap, libs=[str(lib)] + vlib.CODEC_LIBS)
+    r = vlib.sh([str(real)], input="bufsz\nxbufsz\n", env=ctx.san_env(), timeout=HARNESS_TIMEOUT)
     try:
-        B = int(r.stdout.strip())
-    except ValueError:
+        l = r.stdout.split()
+        B, bx_i, bx_o = int(l[0]), int(l[1]), int(l[2])
+    except (ValueError, IndexError):
         raise vlib.CheckFailure("harness did not report BUFSZ: %r %r" % (r.stdout, r.stderr[-500:]))
     hs[B] = real
-    src = (vlib.REPO / ISTREAM_C).read_text()
+    bx[B] = (bx_i, bx_o)
     pat = re.compile(r"(#define\s+BUFSZ\s+)\(?\s*\d+\s*\)?")
+    srcs = {n: (vlib.REPO / n).read_text() for n in (ISTREAM_C, XISTREAM_C, XOSTREAM_C)}
     small = []
-    if len(pat.findall(src)) == 1:
+    if all(len(pat.findall(t)) == 1 for t in srcs.values()):
         for b in SMALL_B:
-            p = ctx.scratch / ("istream_B%d.c" % b)
-            p.write_text(pat.sub(lambda m: "%s(%d)" % (m.group(1), b), src))
-            h = ctx.cc("h_c12_B%d" % b, ["h_c12.c", "h_c12_peek_istream.c", "h_c12_peek_ostream.c"],
-                       flags=wrap + ['-DC12_ISTREAM_SRC="%s"' % p, "-I%s" % (vlib.REPO / "lib/sqfs/src/io")],
-                       libs=[str(lib)] + vlib.CODEC_LIBS)
-            hs[b] = h
+            flags = list(wrap)
+            for name, macro, val in ((ISTREAM_C, "C12_ISTREAM_SRC", b), (XISTREAM_C, "C12_XISTREAM_SRC", SMALL_BX[b][0]),
+                                     (XOSTREAM_C, "C12_XOSTREAM_SRC", SMALL_BX[b][1])):
+                p = ctx.scratch / ("%s_B%d.c" % (name.replace("/", "_")[:-2], b))
+                p.write_text(pat.sub(lambda m: "%s(%d)" % (m.group(1), val), srcs[name]))
+                flags += ['-D%s="%s"' % (macro, p), "-I%s" % (vlib.REPO / name).parent]
+            hs[b] = ctx.cc("h_c12_B%d" % b, HARNESS_SRC, flags=flags, libs=[str(lib)] + vlib.CODEC_LIBS)
+            bx[b] = SMALL_BX[b]
             small.append(b)
     else:
-        ctx.log("istream.c no longer defines BUFSZ as a single literal: small-buffer variants skipped")
-    return hs, B, small
+        ctx.log("a stream source no longer defines BUFSZ as a single literal: small-buffer variants skipped")
+    return hs, B, small, bx
 
 
 def run_harness(ctx, h, lines):
@@ -433,7 +495,7 @@ def spec_normalise(kind, implobs):
     return implobs
 
 
-def inprocess(ctx, hs, B, small):
+def inprocess(ctx, hs, B, small, bx):
     rng = ctx.rng
     quick = ctx.quick()
     scen = []
@@ -448,7 +510,7 @@ def inprocess(ctx, hs, B, small):
                 w = l.split(" ")
                 kind = w[0]
                 script = [] if w[-1] == "-" else w[-1].split(",")
-                b = int(w[1]) if kind == "istream" else 0
+                b = int(w[1]) if kind in ("istream", "xistream") else 0
                 sc = {"kind": kind, "B": b, "script": script, "line": l, "full": " ".join(w[:-1] + ["-"]), "args": None}
                 if kind == "readat":
                     sc["args"] = (w[1], int(w[2]), int(w[3]))
@@ -460,6 +522,16 @@ def inprocess(ctx, hs, B, small):
                     sc["spec"] = "spec %s %s %s" % (w[1], w[3], w[4])
                     if b != B and b not in small:
                         continue
+                elif kind == "xistream":
+                    sc["spec"] = "xspec %s %s %s %s" % (w[1], w[2], w[4], w[5])
+                    if b not in bx or bx[b][0] != int(w[2]):
+                        continue
+                elif kind == "xostream":
+                    cand = [k for k, v in bx.items() if v[1] == int(w[1])]
+                    if not cand:
+                        continue
+                    sc["B"] = b = cand[0]
+                    sc["args"] = (w[2], [] if w[3] == "-" else w[3].split(","))
                 else:
                     continue
                 scen.append(sc)
@@ -472,7 +544,14 @@ def inprocess(ctx, hs, B, small):
         scen.append(gen_ostream(rng, False))
         for b in small:
             scen.append(gen_istream(rng, b, False))
+        b = rng.choice(small) if small else None
+        if b is not None:
+            scen.append(gen_xistream(rng, b, bx[b][0], False))
+            scen.append(gen_xostream(rng, b, bx[b][1], False))
     for _ in range(n_big):
+        if rng.random() < 0.4:
+            scen.append(gen_xistream(rng, B, bx[B][0], True))
+            scen.append(gen_xostream(rng, B, bx[B][1], True))
         scen.append(gen_readat(rng, True))
         scen.append(gen_writeat(rng, True))
         scen.append(gen_ostream(rng, True))
@@ -482,7 +561,7 @@ def inprocess(ctx, hs, B, small):
     # group by harness binary
     groups = {}
     for sc in scen:
-        key = sc["B"] if sc["kind"] == "istream" else B
+        key = sc["B"] if sc["kind"] in STREAMK else B
         groups.setdefault(key, []).append(sc)
     stats = {"property_failures": 0, "corr_failures": 0}
     crashed = False
@@ -504,12 +583,12 @@ def inprocess(ctx, hs, B, small):
     if crashed:
         return scen, stats, ncorpus
     mlines = [sc["line"] for sc in scen]
-    slines = [sc["spec"] for sc in scen if sc["kind"] == "istream" and not is_hard(sc["script"])]
+    slines = [sc["spec"] for sc in scen if sc["kind"] in ("istream", "xistream") and not is_hard(sc["script"])]
     mout = run_model(ctx, mlines + slines, jobs)
     it = iter(mout[len(mlines):])
     for sc, o in zip(scen, mout):
         sc["model"] = o
-        if sc["kind"] == "istream" and not is_hard(sc["script"]):
+        if sc["kind"] in ("istream", "xistream") and not is_hard(sc["script"]):
             sc["specout"] = next(it)
     for sc in scen:
         classify(ctx, sc, stats)
@@ -521,10 +600,10 @@ def run(ctx):
     if not ok:
         ctx.violation("proof:C12", "proof obligations of C12 no longer check: " + " | ".join(problems)[:1500],
                       {"broken": problems, "theorems_file": "lean/Sqfs/Props/C12.lean"}, found_input=False)
-    hs, B, small = build_harnesses(ctx)
+    hs, B, small, bx = build_harnesses(ctx)
     ctx.log("istream BUFSZ of the working tree = %d; small-buffer variants %s" % (B, small))
     t0 = time.time()
-    scen, stats, ncorpus = inprocess(ctx, hs, B, small)
+    scen, stats, ncorpus = inprocess(ctx, hs, B, small, bx)
     t_in = time.time() - t0
     done = [sc for sc in scen if "impl" in sc and "model" in sc]
     consumed = 0
@@ -538,7 +617,8 @@ def run(ctx):
             evhist[e[0]] += 1
         if used > 0:
             nontrivial.add(sc["line"])
-        kinds[sc["kind"] + (":B=%d" % sc["B"] if sc["kind"] == "istream" else "")] = kinds.get(sc["kind"] + (":B=%d" % sc["B"] if sc["kind"] == "istream" else ""), 0) + 1
+        kk = sc["kind"] + (":B=%d" % sc["B"] if sc["kind"] in STREAMK else "")
+        kinds[kk] = kinds.get(kk, 0) + 1
     ctx.log("in-process: %d scenarios, %d with ≥1 scripted event consumed, %d events fired %s, %.1fs" % (
         len(done), len(nontrivial), consumed, evhist, t_in))
     # ---- tool level
@@ -617,7 +697,7 @@ def replay(ctx, path):
         print("replay file names a broken obligation, no input to replay:", json.dumps(rp)[:800])
         return 1
     ctx.lean_build(["sqfsmodel"])
-    hs, B, small = build_harnesses(ctx)
+    hs, B, small, bx = build_harnesses(ctx)
     key = rp.get("B") or B
     if key not in hs:
         key = B
